@@ -262,7 +262,12 @@ let storage_handlers = [
        | _ -> emit "*"));
   ("ls", (fun _ -> emit "*"));
   ("disk", (fun _ -> emit "*"));
-  ("fsync", (fun _ -> emit "fsync ok"));
+  ("fsync", (fun _ ->
+       (* Storage::fsyncdata: an explicit request always syncs the active blob *)
+       (match !st.s_active with
+        | Some b when !st.s_open -> pending_evs := !pending_evs @ [EvSync (FBlob, b.b_id)]
+        | _ -> ());
+       emit "fsync ok"));
   ("offload", (fun _ -> emit "*"));
   ("CF", (fun _ -> emit "*"));
   ("CFS", (fun _ -> emit "*"));
@@ -400,6 +405,39 @@ let cmd_idx args =
     (match p.pbloom with Some b -> p.pbloom <- Some (bloom_clear b) | None -> ());
     emit "idx clear"
   | ["drop"; _] -> emit "idx drop"
+  | ["cut"; id; n] ->
+    let p = Hashtbl.find probes id in
+    (match p.pfilebytes with
+     | Some b ->
+       let n = if n = "last" then List.length b - 1 else int_of_string n in
+       if n < List.length b then begin p.pfilebytes <- Some (List.filteri (fun i _ -> i < n) b); emit "idx cut ok" end
+       else emit "idx cut noop"
+     | None -> emit "idx cut absent")
+  | ["poke"; id; pos; hex] ->
+    let p = Hashtbl.find probes id in
+    let pos = int_of_string pos in
+    let bs = bytes_of_hex hex in
+    (match p.pfilebytes with
+     | Some b when pos + List.length bs <= List.length b ->
+       p.pfilebytes <- Some (List.mapi (fun i x -> if i >= pos && i < pos + List.length bs then List.nth bs (i - pos) else x) b);
+       emit "idx poke ok"
+     | _ -> emit "idx poke absent")
+  | ["open"; id; _bloom; bsize] ->
+    (* BPTreeFileIndex::from_file + validate on the (possibly damaged) file bytes: Index/Open.v index_open *)
+    let p = Hashtbl.find probes id in
+    (match p.pfilebytes with
+     | None -> emit "*"
+     | Some b ->
+       (match index_open b (n_of_int k) (n_of_string bsize) with
+        | Inl _ -> emit "idx open ok"
+        | Inr e -> emit (match e with
+            | IEof | ICut -> "idx open Err Bincode"
+            | INotWritten -> "idx open Err Validation:IndexNotWritten"
+            | IVersion -> "idx open Err Validation:IndexVersion"
+            | IKeySize -> "idx open Err Validation:IndexKeySize"
+            | IBlobSize -> "idx open Err Validation:IndexBlobSize"
+            | IMagic -> "idx open Err Validation:IndexMagicByte"
+            | IPanicOrEof -> "*")))
   | _ -> emit "*"
 let () = handlers := ("idx", cmd_idx) :: !handlers
 
